@@ -83,6 +83,14 @@ def bech32_decode(bech):
     Cardano (CIP-5, CIP-19) uses Bech32 (BIP-173) only: a string whose checksum
     is valid under the Bech32m constant (BIP-350) is rejected like any other
     string with an invalid checksum.
+
+    The 90-character limit of BIP-173 is not applied: CIP-19 uses Bech32 without
+    a length limit, and e.g. a testnet pointer address needs up to 111
+    characters for 64-bit pointer components (PointerAddress accepts larger
+    integers still). The checksum is verified over the whole string, but for
+    strings longer than 90 characters it no longer guarantees the detection of
+    every error affecting up to 4 characters; a single substituted character
+    is detected at any length.
     """
     if (any(ord(x) < 33 or ord(x) > 126 for x in bech)) or (
         bech.lower() != bech and bech.upper() != bech
@@ -90,7 +98,7 @@ def bech32_decode(bech):
         return (None, None, None)
     bech = bech.lower()
     pos = bech.rfind("1")
-    if pos < 1 or pos + 7 > len(bech) or len(bech) > 108:
+    if pos < 1 or pos + 7 > len(bech):
         return (None, None, None)
     if not all(x in CHARSET for x in bech[pos + 1 :]):
         return (None, None, None)
@@ -129,7 +137,7 @@ def decode(addr):
     """Decode a segwit address."""
     _, data, _ = bech32_decode(addr)
     decoded = convertbits(data, 5, 8, False)
-    if decoded is None or len(decoded) < 2 or len(decoded) > 108:
+    if decoded is None or len(decoded) < 2:
         return None
     return decoded
 
